@@ -1,128 +1,157 @@
-(* C06 — with the proposed repairs switched on (erase the caches that can see a rebound entry / a changed metadatum: the node,
-   its ancestors, its subtree) the rebinding and metadata writes keep the invariant too: the full statement holds for every
-   history over trees of TensorDicts that does not call memmap_ on a locked tree (D7 / D61 belong to the lock graph). *)
+(* C06 — the repaired library ([repo]: the fix: commits of D19/D60, D61, D63 applied): wherever an entry is rebound or a
+   names / batch-size metadatum is assigned under lock, the node erases its own cache and the caches of its registered lock
+   parents (TensorDictBase._erase_cache_upwards).  With that, the writes permitted under lock keep the invariant too: the full
+   statement holds for every history over trees of TensorDicts. *)
 From Coq Require Import ZArith List String Bool Arith Lia.
 Import ListNotations.
-From TD Require Import Model.C06_Cache Proofs.C06_PathP Proofs.C06_ViewP Proofs.C06_KeyP Proofs.C06_CacheP Proofs.C06_ReadP Proofs.C06_StepP.
+From TD Require Import Model.C06_Cache Proofs.C06_PathP Proofs.C06_ViewP Proofs.C06_KeyP Proofs.C06_CacheP Proofs.C06_EraseP Proofs.C06_ReadP Proofs.C06_StepP.
 Open Scope string_scope.
 Open Scope list_scope.
 
-Definition erase_f (p0 : path) (n : node) : node :=
-  if is_prefix (n_path n) p0 || is_prefix p0 (n_path n) then with_cache n [] else n.
-
-Lemma erase_around_eq : forall s p0, erase_around s p0 = upd_nodes s (erase_f p0).
-Proof. reflexivity. Qed.
-
-Lemma erase_f_keeps : forall p0 n, n_path (erase_f p0 n) = n_path n /\ info (erase_f p0 n) = info n.
-Proof. intros. unfold erase_f. destruct (is_prefix (n_path n) p0 || is_prefix p0 (n_path n)); split; reflexivity. Qed.
-
-Lemma erase_f_fields : forall p0 n, flag_locked (erase_f p0 n) = flag_locked n /\ n_parents (erase_f p0 n) = n_parents n
-                                   /\ n_flag (erase_f p0 n) = n_flag n /\ n_kind (erase_f p0 n) = n_kind n.
-Proof. intros. unfold erase_f. destruct (is_prefix (n_path n) p0 || is_prefix p0 (n_path n)); repeat split; reflexivity. Qed.
-
-Lemma skel_filter_out : forall p (h : node -> node) (l : list node),
-  (forall y, n_path (h y) = n_path y) -> (forall y, is_prefix p (n_path y) = false -> info (h y) = info y) ->
-  filter (fun pi : path * ninfo => negb (is_prefix p (fst pi))) (map (fun n => (n_path (h n), info (h n))) l)
-  = filter (fun pi : path * ninfo => negb (is_prefix p (fst pi))) (map (fun n => (n_path n, info n)) l).
+(* ---------------------------------------------------------------- the single ops *)
+Lemma leaves_under_set_leaf : forall s p l x, is_prefix x p = false -> leaves_under (set_leaf s p l) x = leaves_under s x.
 Proof.
-  intros p h l Hp Hi. induction l as [|y l IH]; [reflexivity|]. cbn [map filter fst]. rewrite Hp.
-  destruct (is_prefix p (n_path y)) eqn:Py; cbn [negb]; [exact IH|]. rewrite IH, (Hi y Py). reflexivity.
+  intros s p l x H. unfold leaves_under, set_leaf. cbn [leaves].
+  assert (Z : strip x p = None) by (unfold is_prefix in H; destruct (strip x p); [discriminate|reflexivity]).
+  destruct (existsb (fun ql => path_eqb (fst ql) p) (leaves s)).
+  - induction (leaves s) as [|ql r IH]; [reflexivity|]. cbn [map flat_map]. rewrite IH. f_equal.
+    destruct (path_eqb (fst ql) p) eqn:E; [|reflexivity]. apply path_eqb_eq in E. cbn [fst snd]. rewrite E, Z. reflexivity.
+  - rewrite flat_map_app. cbn. rewrite Z. cbn. now rewrite app_nil_r.
 Qed.
 
-(* a state s1 that differs from a good state s only in node metadata / entries at or below p, followed by erasing around p0
-   where everything comparable with p is comparable with p0 *)
-Lemma erase_after_change_good : forall U s s1 p p0 (g : node -> node),
-  Good U s ->
-  nodes s1 = map g (nodes s) ->
-  (forall n, n_path (g n) = n_path n /\ n_uid (g n) = n_uid n /\ n_kind (g n) = n_kind n /\ n_flag (g n) = n_flag n
-             /\ n_parents (g n) = n_parents n /\ n_cache (g n) = n_cache n) ->
-  (forall n, is_prefix p (n_path n) = false -> g n = n) ->
-  filter (keep_l p) (leaves s1) = filter (keep_l p) (leaves s) ->
-  (forall x, is_prefix x p0 = false -> is_prefix p0 x = false -> is_prefix x p = false /\ is_prefix p x = false) ->
-  Good U (erase_around s1 p0).
+(* an entry of owner p0 is rebound (non-tensor promotion, make_memmap and friends) *)
+Lemma rebind_good : forall U s p l o,
+  Good U s -> find_node s (parent_of p) = Some o -> flag_locked o = true -> p <> [] ->
+  (forall n, In n (nodes s) -> n_path n <> p) ->
+  Good U (erase_touched (set_leaf s p l) (fun x => path_eqb x (parent_of p))).
 Proof.
-  intros U s s1 p p0 g G Hn Hg Hout Hl Hcmp. rewrite erase_around_eq.
-  set (f := fun n => erase_f p0 (g n)).
-  assert (E : nodes (upd_nodes s1 (erase_f p0)) = map f (nodes s)) by (unfold upd_nodes; cbn; rewrite Hn, map_map; reflexivity).
-  assert (In' : forall n', In n' (nodes (upd_nodes s1 (erase_f p0))) -> exists n, In n (nodes s) /\ n' = f n).
+  intros U s p l o G F L Np Nn. destruct (find_node_in s _ o F) as [Ho Po].
+  apply (erase_touched_good U s (set_leaf s p l) (fun x => x) (fun x => path_eqb x (parent_of p))); auto.
+  - cbn. now rewrite map_id.
+  - intros; apply id_keeps.
+  - intros n Hn Ln C. apply leaves_under_set_leaf.
+    destruct (is_prefix (n_path n) p) eqn:P; [|reflexivity]. exfalso.
+    destruct (prefix_split _ _ P) as [P'|P']; [exact (Nn n Hn P')|].
+    apply proper_prefix_parent in P'. rewrite <- Po in P'. rewrite (C o Ho) in P'; [discriminate|]. rewrite Po. apply path_eqb_refl.
+  - intros y Hy Ty. apply path_eqb_eq in Ty. assert (y = o) by (apply (nodup_path_inj (nodes s)); auto; [apply (g_nodup U s G)|congruence]). now subst.
+Qed.
+
+(* ... by an owner that is not locked: nothing above it is locked either (lock closure), so no memoised entry shows it *)
+Lemma unlocked_rebind_good : forall U s p l o,
+  Good U s -> find_node s (parent_of p) = Some o -> flag_locked o = false ->
+  (forall n, In n (nodes s) -> n_path n <> p) ->
+  Good U (set_leaf s p l).
+Proof.
+  intros U s p l o G F L Nn. destruct (find_node_in s _ o F) as [Ho Po].
+  constructor; try (cbn [nodes set_leaf]; apply G).
+  intros n e Hn He. cbn [nodes set_leaf] in Hn.
+  assert (Ln : flag_locked n = true).
+  { destruct (flag_locked n) eqn:Ln; [reflexivity|]. rewrite (g_ue U s G n Hn Ln) in He. contradiction. }
+  eapply entry_ok_view; [reflexivity| |apply (g_inv U s G n e Hn He)].
+  unfold view_of. rewrite leaves_under_set_leaf; [reflexivity|].
+  destruct (is_prefix (n_path n) p) eqn:P; [|reflexivity]. exfalso.
+  destruct (prefix_split _ _ P) as [P'|P']; [exact (Nn n Hn P')|].
+  apply proper_prefix_parent in P'. rewrite <- Po in P'. assert (flag_locked o = true) by (eapply (g_lc U s G n o); eauto). congruence.
+Qed.
+
+Lemma no_node_at : forall U s p, Good U s -> is_node_path s p = false -> forall n, In n (nodes s) -> n_path n <> p.
+Proof.
+  intros U s p G H n Hn E. unfold is_node_path in H. rewrite <- E, (find_node_of_in s n (g_nodup U s G) Hn) in H. discriminate.
+Qed.
+
+Lemma with_meta_keeps : forall x m, keeps (fun y => with_meta y m) x.
+Proof. intros. repeat split. Qed.
+
+Lemma set_names_shape : forall p names, exists g,
+  (forall n, keeps g n) /\ (forall n, names_touched p names (n_path n) = false -> g n = n)
+  /\ forall s, nodes (set_names s p names) = map g (nodes s) /\ leaves (set_names s p names) = leaves s.
+Proof.
+  intros p names. unfold set_names, names_touched. destruct (names_value names) as [l|].
+  - exists (fun x => if is_prefix p (n_path x)
+                     then with_meta x {| m_bs := m_bs (n_meta x);
+                                         m_names := norm_names (l ++ skipn (List.length l) (names_list (n_meta x)));
+                                         m_dev := m_dev (n_meta x) |}
+                     else x).
+    split; [|split; [|intros s; split; reflexivity]].
+    + intros n. unfold keeps. cbn beta. destruct (is_prefix p (n_path n)); repeat split; reflexivity.
+    + intros n P. now rewrite P.
+  - exists (fun x => if path_eqb (n_path x) p || is_child p (n_path x)
+                     then with_meta x {| m_bs := m_bs (n_meta x); m_names := None; m_dev := m_dev (n_meta x) |} else x).
+    split; [|split; [|intros s; split; reflexivity]].
+    + intros n. unfold keeps. cbn beta. destruct (path_eqb (n_path n) p || is_child p (n_path n)); repeat split; reflexivity.
+    + intros n P. now rewrite P.
+Qed.
+
+Lemma keeps_comp : forall g1 g2 n, keeps g1 n -> keeps g2 (g1 n) -> keeps (fun x => g2 (g1 x)) n.
+Proof. intros g1 g2 n [a1 [a2 [a3 [a4 [a5 a6]]]]] [b1 [b2 [b3 [b4 [b5 b6]]]]]. repeat split; congruence. Qed.
+
+Lemma locked_at_in : forall U s n, Good U s -> In n (nodes s) -> locked_at s (n_path n) = flag_locked n.
+Proof. intros U s n G Hn. unfold locked_at. now rewrite (find_node_of_in s n (g_nodup U s G) Hn). Qed.
+
+(* metadata rewrites: the touched nodes that are locked erase upwards; the touched nodes that are not locked have no locked
+   node above them (lock closure), so nobody memoised anything that shows them *)
+Lemma meta_good : forall U s s1 g T,
+  Good U s ->
+  nodes s1 = map g (nodes s) -> leaves s1 = leaves s ->
+  (forall n, keeps g n) -> (forall n, T (n_path n) = false -> g n = n) ->
+  Good U (erase_touched s1 (fun x => T x && locked_at s x)).
+Proof.
+  intros U s s1 g T G Hn Hlv Hk Hout.
+  set (T' := fun y => T y && negb (existsb (fun a => flag_locked a && is_prefix (n_path a) y) (nodes s)) || T y && locked_at s y).
+  (* rewriting an unlocked node without locked ancestors is invisible to every memoised entry: treat it as not touched for
+     the purpose of erasing, in two steps *)
+  assert (Main : forall n e, In n (nodes s) -> In e (n_cache n) ->
+                 erased s1 (fun x => T x && locked_at s x) (g n) = false ->
+                 forall y, In y (nodes s) -> T (n_path y) = true -> is_prefix (n_path n) (n_path y) = false).
+  { intros n e Hn0 He Er y Hy Ty. destruct (is_prefix (n_path n) (n_path y)) eqn:P; [|reflexivity]. exfalso.
+    assert (Ln : flag_locked n = true).
+    { destruct (flag_locked n) eqn:L; [reflexivity|]. rewrite (g_ue U s G n Hn0 L) in He. contradiction. }
+    assert (Ly : flag_locked y = true) by (eapply (g_lc U s G n y); eauto).
+    unfold erased in Er. apply orb_false_iff in Er. destruct Er as [E1 E2]. destruct (Hk n) as [Gp _]. rewrite Gp in *.
+    destruct (prefix_split _ _ P) as [P'|P'].
+    - rewrite P', Ty, (locked_at_in U s y G Hy), Ly in E1. discriminate.
+    - assert (R : In (n_path n) (n_parents y)) by (eapply (g_pc U s G n y); eauto).
+      assert (X : existsb (fun y0 => (T (n_path y0) && locked_at s (n_path y0)) && path_mem (n_path n) (n_parents y0)) (nodes s1) = true).
+      { apply existsb_exists. exists (g y). split; [rewrite Hn; now apply in_map|].
+        destruct (Hk y) as [Yp [_ [_ [_ [Ypa _]]]]]. rewrite Yp, Ypa, Ty, (locked_at_in U s y G Hy), Ly. cbn. now apply path_mem_in. }
+      congruence. }
+  rewrite erase_touched_eq.
+  set (Tl := fun x => T x && locked_at s x).
+  set (f := fun n => if erased s1 Tl (g n) then with_cache (g n) [] else g n).
+  assert (E : nodes (upd_nodes s1 (fun x => if erased s1 Tl x then with_cache x [] else x)) = map f (nodes s)).
+  { unfold upd_nodes. cbn [nodes]. rewrite Hn, map_map. reflexivity. }
+  assert (In' : forall n', In n' (nodes (upd_nodes s1 (fun x => if erased s1 Tl x then with_cache x [] else x))) -> exists n, In n (nodes s) /\ n' = f n).
   { intros n' H. rewrite E in H. apply in_map_iff in H. destruct H as [n [<- H]]. now exists n. }
   assert (K : forall n, n_path (f n) = n_path n /\ flag_locked (f n) = flag_locked n /\ n_parents (f n) = n_parents n
-                        /\ n_flag (f n) = n_flag n /\ n_kind (f n) = n_kind n).
-  { intros n. unfold f. destruct (erase_f_keeps p0 (g n)) as [A _], (erase_f_fields p0 (g n)) as [B [C [D D']]].
-    destruct (Hg n) as [G1 [G2 [G3 [G4 [G5 G6]]]]]. unfold flag_locked in *.
-    split; [congruence|]. split; [rewrite B, G4; reflexivity|]. split; [congruence|]. split; congruence. }
-  assert (TD1 : all_td (upd_nodes s1 (erase_f p0))).
-  { intros n' H. destruct (In' n' H) as [n [Hn0 ->]]. destruct (K n) as [_ [_ [_ [_ Kk]]]]. rewrite Kk. now destruct (g_td U s G n Hn0). }
+                        /\ n_flag (f n) = n_flag n /\ n_kind (f n) = n_kind n /\ info (f n) = info (g n)).
+  { intros n. destruct (Hk n) as [G1 [G2 [G3 [G4 [G5 G6]]]]]. unfold f, flag_locked.
+    destruct (erased s1 Tl (g n)); cbn; rewrite ?G1, ?G3, ?G4, ?G5; repeat split; reflexivity. }
   constructor.
-  - unfold upd_nodes. cbn [nodes]. rewrite Hn, !map_map. erewrite map_ext; [apply (g_nodup U s G)|]. intros n. apply (K n).
-  - intros n' H. destruct (In' n' H) as [n [Hn0 ->]]. destruct (K n) as [_ [_ [_ [Kf Kk]]]]. rewrite Kf, Kk. now apply (g_td U s G).
+  - rewrite E, map_map. erewrite map_ext; [apply (g_nodup U s G)|]. intros n. apply (K n).
+  - intros n' H. destruct (In' n' H) as [n [Hn0 ->]]. destruct (K n) as [_ [_ [_ [Kf [Kk _]]]]]. rewrite Kf, Kk. now apply (g_td U s G).
   - intros n' x' H H' L P. destruct (In' n' H) as [n [Hn0 ->]], (In' x' H') as [x [Hx0 ->]].
     destruct (K n) as [Kp [Kl _]], (K x) as [Kp' [Kl' _]]. rewrite Kl in L. rewrite Kl'. rewrite Kp, Kp' in P. eapply (g_lc U s G n x); eauto.
   - intros n' x' H H' L P. destruct (In' n' H) as [n [Hn0 ->]], (In' x' H') as [x [Hx0 ->]].
     destruct (K n) as [Kp [Kl _]], (K x) as [Kp' [_ [Kpa _]]]. rewrite Kl in L. rewrite Kp, Kp' in P. rewrite Kp, Kpa. eapply (g_pc U s G n x); eauto.
   - intros n' H L. destruct (In' n' H) as [n [Hn0 ->]]. destruct (K n) as [_ [Kl _]]. rewrite Kl in L.
-    unfold f, erase_f. destruct (is_prefix (n_path (g n)) p0 || is_prefix p0 (n_path (g n))); [reflexivity|].
-    destruct (Hg n) as [_ [_ [_ [_ [_ Gc]]]]]. rewrite Gc. now apply (g_ue U s G).
-  - intros n' e H He. destruct (In' n' H) as [n [Hn0 ->]]. destruct (Hg n) as [Gp [_ [_ [_ [_ Gc]]]]].
-    unfold f, erase_f in He |- *. rewrite Gp in *.
-    destruct (is_prefix (n_path n) p0 || is_prefix p0 (n_path n)) eqn:Er; [contradiction|].
-    apply orb_false_iff in Er. destruct Er as [E1 E2]. destruct (Hcmp (n_path n) E1 E2) as [C1 C2].
-    rewrite Gc in He. eapply entry_ok_view; [exact Gp| |apply (g_inv U s G n e Hn0 He)].
-    apply (view_irrelevant s _ (n_path n) p C1 C2); [| |eapply good_all_td; eauto|exact TD1].
-    + unfold skel, upd_nodes. cbn [nodes]. rewrite Hn, !map_map.
-      apply (skel_filter_out p (fun x => erase_f p0 (g x))).
-      * intros y. apply (K y).
-      * intros y Py. rewrite (Hout y Py). apply erase_f_keeps.
-    + exact Hl.
+    unfold f. destruct (erased s1 Tl (g n)); [reflexivity|].
+    destruct (Hk n) as [_ [_ [_ [_ [_ Gc]]]]]. rewrite Gc. now apply (g_ue U s G).
+  - intros n' e H He. destruct (In' n' H) as [n [Hn0 ->]]. destruct (Hk n) as [Gp [_ [_ [_ [_ Gc]]]]].
+    unfold f in He |- *. destruct (erased s1 Tl (g n)) eqn:Er; [contradiction|]. rewrite Gc in He.
+    assert (C := Main n e Hn0 He Er).
+    eapply entry_ok_view; [exact Gp| |apply (g_inv U s G n e Hn0 He)].
+    unfold view_of.
+    assert (N : nodes_under (upd_nodes s1 (fun x => if erased s1 Tl x then with_cache x [] else x)) (n_path n) = nodes_under s (n_path n)).
+    { unfold nodes_under. rewrite E. rewrite flat_map_map.
+      apply (nodes_under_rewrite (nodes s) f g (n_path n) T); auto.
+      intros y Hy. destruct (K y) as [Kp [_ [_ [_ [_ Ki]]]]]. now split. }
+    assert (Lv : leaves_under (upd_nodes s1 (fun x => if erased s1 Tl x then with_cache x [] else x)) (n_path n) = leaves_under s (n_path n)).
+    { unfold leaves_under. cbn [leaves upd_nodes]. now rewrite Hlv. }
+    rewrite N, Lv. now rewrite (has_lazy_td s (n_path n) (good_all_td U s G)).
 Qed.
 
-Lemma cmp_parent : forall p x, is_prefix x (parent_of p) = false -> is_prefix (parent_of p) x = false -> is_prefix x p = false /\ is_prefix p x = false.
-Proof.
-  intros p x H1 H2. split.
-  - destruct (is_prefix x p) eqn:E; [|reflexivity]. destruct (prefix_split _ _ E) as [->|E'].
-    + rewrite parent_prefix in H2. discriminate.
-    + apply proper_prefix_parent in E'. congruence.
-  - destruct (is_prefix p x) eqn:E; [|reflexivity].
-    assert (is_prefix (parent_of p) x = true) by (eapply is_prefix_trans; [apply parent_prefix|exact E]). congruence.
-Qed.
-
-Lemma cmp_self : forall p x, is_prefix x p = false -> is_prefix p x = false -> is_prefix x p = false /\ is_prefix p x = false.
-Proof. auto. Qed.
-
-(* node rewrites that keep everything but the metadata, and only at or below p *)
-Definition nice (p : path) (g : node -> node) : Prop :=
-  (forall n, n_path (g n) = n_path n /\ n_uid (g n) = n_uid n /\ n_kind (g n) = n_kind n /\ n_flag (g n) = n_flag n
-             /\ n_parents (g n) = n_parents n /\ n_cache (g n) = n_cache n)
-  /\ (forall n, is_prefix p (n_path n) = false -> g n = n).
-
-Lemma nice_comp : forall p g1 g2, nice p g1 -> nice p g2 -> nice p (fun x => g2 (g1 x)).
-Proof.
-  intros p g1 g2 [A1 B1] [A2 B2]. split.
-  - intros n. destruct (A1 n) as [a1 [a2 [a3 [a4 [a5 a6]]]]], (A2 (g1 n)) as [b1 [b2 [b3 [b4 [b5 b6]]]]]. repeat split; congruence.
-  - intros n P. rewrite (B1 n P). now apply B2.
-Qed.
-
-Lemma is_child_prefix : forall p q, is_child p q = true -> is_prefix p q = true.
-Proof. intros p q H. unfold is_child in H. unfold is_prefix. destruct (strip p q); [reflexivity|discriminate]. Qed.
-
-Lemma set_names_nice : forall p names, exists g, nice p g /\ forall s, nodes (set_names s p names) = map g (nodes s) /\ leaves (set_names s p names) = leaves s.
-Proof.
-  intros p names. unfold set_names.
-  destruct (match names with Some l => norm_names l | None => None end) as [l|].
-  - eexists. split; [|intros s; split; reflexivity]. split.
-    + intros n. destruct (is_prefix p (n_path n)); repeat split; reflexivity.
-    + intros n P. now rewrite P.
-  - eexists. split; [|intros s; split; reflexivity]. split.
-    + intros n. destruct (path_eqb (n_path n) p || is_child p (n_path n)); repeat split; reflexivity.
-    + intros n P. destruct (path_eqb (n_path n) p || is_child p (n_path n)) eqn:E; [|reflexivity]. exfalso.
-      apply orb_true_iff in E. destruct E as [E|E].
-      * apply path_eqb_eq in E. rewrite E, is_prefix_refl in P. discriminate.
-      * apply is_child_prefix in E. congruence.
-Qed.
-
-Definition fixed (fx : fixes) : Prop := fix_rebind fx = true /\ fix_meta fx = true.
-
-(* the writes of the full statement, except memmap_ on a tree *)
+(* ---------------------------------------------------------------- every write permitted under lock *)
+(* the ops of the full statement; memmap_() on a tree belongs to the lock graph (D7) and stays outside *)
 Definition permitted_op (U : list obj) (o : op) : Prop :=
   match o with
   | OPromote _ _ | OMakeMemmap _ _ | OSetNames _ _ | OSetBatchSize _ _ => True
@@ -130,68 +159,64 @@ Definition permitted_op (U : list obj) (o : op) : Prop :=
   | o => clean_op U o
   end.
 
-Lemma set_leaf_nodes : forall s p l, nodes (set_leaf s p l) = nodes s.
-Proof. reflexivity. Qed.
-
-Theorem step_good_fixed : forall fx U hk s o,
-  fixed fx -> objs_consistent U -> Good U s -> permitted_op U o -> Good U (fst (step fx hk s o)).
+Theorem step_good_repaired : forall U hk s o,
+  objs_consistent U -> Good U s -> permitted_op U o -> Good U (fst (step repo hk s o)).
 Proof.
-  intros fx U hk s o [FR FM] HU G C.
+  intros U hk s o HU G C.
   destruct o; cbn [permitted_op] in C; try (now apply step_good_any); try contradiction; cbn [step].
   - (* OPromote *)
-    destruct (find_leaf s p) as [old|]; [|exact G]. destruct (find_node s (parent_of p)) as [n|]; [|exact G].
-    destruct (l_kind old); try exact G. destruct (n_memmap n); [exact G|]. rewrite FR. cbn [fst].
-    apply (erase_after_change_good U s (set_leaf s p l) p (parent_of p) (fun n => n)); auto.
-    + cbn. now rewrite map_id.
-    + intros. repeat split; reflexivity.
-    + cbn. apply keep_l_set_leaf.
-    + apply cmp_parent.
+    destruct (find_leaf s p) as [old|] eqn:FL; [|exact G]. destruct (find_node s (parent_of p)) as [n|] eqn:F; [|exact G].
+    destruct (l_kind old); try exact G. destruct (n_memmap n); [exact G|].
+    destruct (is_node_path s p) eqn:Ex; [exact G|]. cbn [fix_rebind repo andb].
+    destruct (flag_locked n) eqn:L; cbn [fst].
+    + destruct p as [|x p]; [unfold is_node_path in Ex; cbn in F; rewrite F in Ex; discriminate|].
+      eapply rebind_good; eauto; [discriminate|]. eapply no_node_at; eauto.
+    + eapply (unlocked_rebind_good U s p l n); eauto. eapply no_node_at; eauto.
   - (* OMakeMemmap *)
-    destruct (find_node s (parent_of p)) as [n|]; [|exact G]. destruct p as [|x p]; [exact G|].
+    destruct (find_node s (parent_of p)) as [n|] eqn:F; [|exact G]. destruct p as [|x p]; [exact G|].
     destruct (negb (n_memmap n)); [exact G|].
-    destruct (is_node_path s (x :: p) || match find_leaf s (x :: p) with Some _ => true | None => false end); [exact G|].
-    rewrite FR. cbn [fst].
-    apply (erase_after_change_good U s (set_leaf s (x :: p) l) (x :: p) (parent_of (x :: p)) (fun n => n)); auto.
-    + cbn. now rewrite map_id.
-    + intros. repeat split; reflexivity.
-    + cbn [leaves set_leaf]. apply keep_l_set_leaf.
-    + apply cmp_parent.
+    destruct (is_node_path s (x :: p) || match find_leaf s (x :: p) with Some _ => true | None => false end) eqn:Ex; [exact G|].
+    apply orb_false_iff in Ex. destruct Ex as [Ex _].
+    cbn [fix_rebind repo andb]. destruct (flag_locked n) eqn:L; cbn [fst].
+    + eapply rebind_good; eauto; [discriminate|]. eapply no_node_at; eauto.
+    + eapply (unlocked_rebind_good U s (x :: p) l n); eauto. eapply no_node_at; eauto.
   - (* OSetNames *)
     destruct (find_node s p) as [n|] eqn:F; [|exact G]. destruct (find_node_in s p n F) as [Hn _].
-    destruct (g_td U s G n Hn) as [T _]. rewrite T, FM. cbn [fst].
-    destruct (set_names_nice p names) as [g [Ng Eg]].
-    apply (erase_after_change_good U s _ p p g); auto; try apply Ng; try apply Eg.
+    destruct (g_td U s G n Hn) as [T _]. rewrite T. cbn [fix_meta repo fst].
+    destruct (set_names_shape p names) as [g [Kg [Og Eg]]].
+    apply (meta_good U s _ g (names_touched p names)); auto; apply Eg.
   - (* OSetBatchSize *)
     destruct (find_node s p) as [n|] eqn:F; [|exact G]. destruct (find_node_in s p n F) as [Hn _].
-    destruct (g_td U s G n Hn) as [T _]. rewrite T, FM. cbn [fst].
+    destruct (g_td U s G n Hn) as [T _]. rewrite T. cbn [fix_meta repo fst].
     set (g1 := fun x => if path_eqb (n_path x) p then with_meta x {| m_bs := bs; m_names := None; m_dev := m_dev (n_meta x) |} else x).
-    assert (N1 : nice p g1).
-    { split.
-      - intros x. unfold g1. destruct (path_eqb (n_path x) p); repeat split; reflexivity.
-      - intros x Px. unfold g1. destruct (path_eqb (n_path x) p) eqn:E; [|reflexivity]. apply path_eqb_eq in E. rewrite E, is_prefix_refl in Px. discriminate. }
+    assert (K1 : forall x, keeps g1 x) by (intros x; unfold keeps, g1; destruct (path_eqb (n_path x) p); repeat split; reflexivity).
     destruct (m_names (n_meta n)) as [l|].
-    + destruct (set_names_nice p (Some (firstn (List.length bs) l))) as [g2 [N2 E2]].
-      apply (erase_after_change_good U s _ p p (fun x => g2 (g1 x))); auto; try apply (nice_comp p g1 g2 N1 N2);
-        try (rewrite (proj1 (E2 _)); cbn [nodes upd_nodes]; now rewrite map_map); try (now rewrite (proj2 (E2 _))).
-    + apply (erase_after_change_good U s _ p p g1); auto; apply N1.
+    + destruct (set_names_shape p (Some (firstn (List.length bs) l))) as [g2 [K2 [O2 E2]]].
+      apply (meta_good U s _ (fun x => g2 (g1 x)) (fun x => path_eqb x p || names_touched p (Some (firstn (List.length bs) l)) x)); auto.
+      * rewrite (proj1 (E2 _)). cbn [nodes upd_nodes]. now rewrite map_map.
+      * intros x. apply keeps_comp; [apply K1|apply K2].
+      * intros x H. apply orb_false_iff in H. destruct H as [H1 H2]. unfold g1. rewrite H1. apply O2.
+        destruct (K1 x) as [Pp _]. exact H2.
+    + apply (meta_good U s _ g1 (fun x => path_eqb x p || false)); auto.
+      intros x H. rewrite orb_false_r in H. unfold g1. now rewrite H.
 Qed.
 
-Theorem run_good_fixed : forall fx U hk ops s,
-  fixed fx -> objs_consistent U -> Good U s -> Forall (permitted_op U) ops -> Good U (run fx hk s ops).
+Theorem run_good_repaired : forall U hk ops s,
+  objs_consistent U -> Good U s -> Forall (permitted_op U) ops -> Good U (run repo hk s ops).
 Proof.
-  intros fx U hk ops. induction ops as [|o ops IH]; intros s FX HU G F; [exact G|].
-  inversion F; subst. rewrite run_cons. apply IH; auto. now apply step_good_fixed.
+  intros U hk ops. induction ops as [|o ops IH]; intros s HU G F; [exact G|].
+  inversion F; subst. rewrite run_cons. apply IH; auto. now apply step_good_repaired.
 Qed.
 
-(* cache_sound with the repairs: every read of every such history returns what a fresh computation returns *)
-Theorem cache_sound_fixed : forall fx U hk s ops,
-  fixed fx -> objs_consistent U -> Good U s -> Forall (permitted_op U) ops ->
+(* cache_sound: every read of every history of permitted operations returns what a fresh computation returns *)
+Theorem cache_sound_repaired : forall U hk s ops,
+  objs_consistent U -> Good U s -> Forall (permitted_op U) ops ->
   forall pre p m a k post, ops = pre ++ ORead p m a k :: post ->
-  forall acc v b, snd (read hk (run fx hk s pre) p m a k) = Some (acc, v, b) ->
-  exists n, find_node (run fx hk s pre) p = Some n /\ v = fresh (run fx hk s pre) n m a k.
+  forall acc v b, snd (read hk (run repo hk s pre) p m a k) = Some (acc, v, b) ->
+  exists n, find_node (run repo hk s pre) p = Some n /\ v = fresh (run repo hk s pre) n m a k.
 Proof.
-  intros fx U hk s ops FX HU G F pre p m a k post E acc v b R. subst ops.
+  intros U hk s ops HU G F pre p m a k post E acc v b R. subst ops.
   apply Forall_app in F. destruct F as [Fpre Fpost]. inversion Fpost as [|? ? C _]; subst.
-  assert (G1 : Good U (run fx hk s pre)) by now apply run_good_fixed.
+  assert (G1 : Good U (run repo hk s pre)) by now apply run_good_repaired.
   cbn in C. destruct (read_spec U hk _ p m a k HU G1 C) as [_ [_ S]]. destruct (S acc v b R) as [n [Fn [Ev _]]]. now exists n.
 Qed.
